@@ -1362,3 +1362,108 @@ package gkvlite
 //@   ensures [C15] releases-what-it-drops: orphans == old(orphans)
 //@   ensures [C15] evicts-only-persisted-items: deref(evictNode).item.item == old(deref(evictNode).item.item) || (deref(evictNode).item.item == nil && !emptyLoc(deref(evictNode).item.loc))
 //@   ensures [C15] released-exactly-once: (forall j {net[j]} :: j != old(deref(evictNode).item.item) ==> net[j] == old(net[j])) && (deref(evictNode).item.item != old(deref(evictNode).item.item) && deref(o).callbacks.ItemDecRef != nil ==> net[old(deref(evictNode).item.item)] == old(net[old(deref(evictNode).item.item)]) - 1)
+
+//@ func (*Collection).VisitItemsAscendEx$1
+//@   props C06
+//@   from: handed to visitNodes as its visitor, so it must satisfy the ItemVisitorEx contract: it delivers to the caller's visitor, or refuses (recording an error) when the item would be out of order
+//@   requires i != nil && locks == emptyLocks()
+//@   requires prevVisitItem != nil && t != nil && errCheckedVisitor != nil && visitor != nil && deref(t) != nil && deref(t).compare != nil && deref(t).store != nil && deref(visitor) != nil
+//@   modifies cell.Int, ghost vis.n, ghost vis.key, ghost vis.item, ghost vis.depth, ghost vis.hasval, ghost vis.stop
+//@   after fmt.Errorf.0 sets vis.stop := true
+//@   ensures logs-or-refuses: (vis.n == old(vis.n) + 1 && vis.key == upd(old(vis.key), old(vis.n), ikey(ia(i))) && vis.item == upd(old(vis.item), old(vis.n), ia(i)) && vis.hasval == upd(old(vis.hasval), old(vis.n), i.Val != nil) && vis.depth == upd(old(vis.depth), old(vis.n), depth)) || (!result && vis.n == old(vis.n) && vis.key == old(vis.key) && vis.item == old(vis.item) && vis.depth == old(vis.depth) && vis.hasval == old(vis.hasval))
+//@   ensures kept-going: result ==> vis.n == old(vis.n) + 1 && vis.stop == old(vis.stop)
+//@   ensures stopped: !result ==> vis.stop
+
+//@ func (*Collection).VisitItemsAscend$1
+//@   props C06
+//@   from: adapts an ItemVisitor to ItemVisitorEx; the depth it was handed is recorded in the log entry the inner visitor wrote (ghost code)
+//@   requires i != nil && locks == emptyLocks() && v != nil && deref(v) != nil
+//@   modifies ghost vis.n, ghost vis.key, ghost vis.item, ghost vis.depth, ghost vis.hasval, ghost vis.stop
+//@   after ItemVisitor.0 sets vis.depth := (vis.n == old(vis.n) + 1 ? upd(vis.depth, old(vis.n), depth) : vis.depth)
+//@   ensures logs-or-refuses: (vis.n == old(vis.n) + 1 && vis.key == upd(old(vis.key), old(vis.n), ikey(ia(i))) && vis.item == upd(old(vis.item), old(vis.n), ia(i)) && vis.hasval == upd(old(vis.hasval), old(vis.n), i.Val != nil) && (forall d {vis.depth[d]} :: d != old(vis.n) ==> vis.depth[d] == old(vis.depth)[d]) && vis.depth[old(vis.n)] == depth) || (!result && vis.n == old(vis.n) && vis.key == old(vis.key) && vis.item == old(vis.item) && vis.depth == old(vis.depth) && vis.hasval == old(vis.hasval))
+//@   ensures kept-going: result ==> vis.n == old(vis.n) + 1 && vis.stop == old(vis.stop)
+//@   ensures stopped: !result ==> vis.stop
+
+//@ func (*Collection).VisitItemsDescend$1
+//@   props C06
+//@   requires i != nil && locks == emptyLocks() && v != nil && deref(v) != nil
+//@   modifies ghost vis.n, ghost vis.key, ghost vis.item, ghost vis.depth, ghost vis.hasval, ghost vis.stop
+//@   after ItemVisitor.0 sets vis.depth := (vis.n == old(vis.n) + 1 ? upd(vis.depth, old(vis.n), depth) : vis.depth)
+//@   ensures logs-or-refuses: (vis.n == old(vis.n) + 1 && vis.key == upd(old(vis.key), old(vis.n), ikey(ia(i))) && vis.item == upd(old(vis.item), old(vis.n), ia(i)) && vis.hasval == upd(old(vis.hasval), old(vis.n), i.Val != nil) && (forall d {vis.depth[d]} :: d != old(vis.n) ==> vis.depth[d] == old(vis.depth)[d]) && vis.depth[old(vis.n)] == depth) || (!result && vis.n == old(vis.n) && vis.key == old(vis.key) && vis.item == old(vis.item) && vis.depth == old(vis.depth) && vis.hasval == old(vis.hasval))
+//@   ensures kept-going: result ==> vis.n == old(vis.n) + 1 && vis.stop == old(vis.stop)
+//@   ensures stopped: !result ==> vis.stop
+
+//@ func (*Collection).VisitItemsAscendEx
+//@   props C06 C19 C07 C15 C05 C04 C09
+//@   from: C06 statement, over the ghost visit log (see visitNodes)
+//@   requires [C05,C18] nolocks: locks == emptyLocks()
+//@   requires t != nil && t.store != nil && t.rootLock != nil && t.compare != nil && visitor != nil
+//@   requires [C07] open-handle: t.root != nil
+//@   relies root-lock-is-private: t.rootLock != ref(freeNodeLock) && t.rootLock != ref(freeNodeLocLock) && t.rootLock != ref(freeRootNodeLocLock)
+//@   relies [C04] current-version-is-live: t.root.refs >= 1 && t.root.root != nil && t.root.next == nil
+//@   relies [C13] published-root-is-a-search-tree: bst(tvs[t.root.root])
+//@   modifies rootNodeLoc.refs, rootNodeLoc.root, rootNodeLoc.next, rootNodeLoc.chainedCollection, rootNodeLoc.chainedRootNodeLoc, node.numNodes, node.numBytes, node.next, itemLoc.loc, itemLoc.item, nodeLoc.loc, nodeLoc.node, nodeLoc.next, mem.ptr, G.freeNodes, G.freeNodeLocs, G.freeRootNodeLocs, AllocStats.CurFreeNodes, AllocStats.FreeNodes, AllocStats.CurFreeNodeLocs, AllocStats.FreeNodeLocs, AllocStats.CurFreeRootNodeLocs, AllocStats.FreeRootNodeLocs, ghost net, ghost tvs, t.store.nodeAllocs, new ploc.Offset, new ploc.Length, new node.numNodes, new node.numBytes, new node.next, new itemLoc.loc, new itemLoc.item, new nodeLoc.loc, new nodeLoc.node, new nodeLoc.next, new Item.Key, new Item.Val, new Item.Priority, new Item.Transient, new mem.byte, ghost io.fails, ghost io.reads, ghost io.valbytes, ghost src, cell.Int, ghost orphans, ghost vis.n, ghost vis.key, ghost vis.item, ghost vis.depth, ghost vis.hasval, ghost vis.stop
+//@   ensures [C07] E1: io.fails >= old(io.fails) && (io.fails > old(io.fails) ==> result != nil)
+//@   ensures [C06] log-only-grows: vis.n >= old(vis.n) && (forall idx {vis.key[idx]} {vis.item[idx]} {vis.hasval[idx]} {old(vis.key)[idx]} {old(vis.item)[idx]} {old(vis.hasval)[idx]} :: idx < old(vis.n) ==> vis.key[idx] == old(vis.key)[idx] && vis.item[idx] == old(vis.item)[idx] && vis.hasval[idx] == old(vis.hasval)[idx])
+//@   ensures [C06] delivered-items-are-the-collections: forall idx {vis.key[idx]} {vis.item[idx]} {vis.depth[idx]} {vis.hasval[idx]} :: old(vis.n) <= idx && idx < vis.n ==> mem(vis.key[idx], old(tvs)[old(t.root.root)]) && vis.item[idx] == itemAt(vis.key[idx], old(tvs)[old(t.root.root)]) && vis.key[idx] >= ord(target) && vis.depth[idx] == depthIn(vis.key[idx], old(tvs)[old(t.root.root)]) && (withValue ==> vis.hasval[idx])
+//@   ensures [C06] strictly-ordered: forall idx, jdx {vis.key[idx], vis.key[jdx]} :: old(vis.n) <= idx && idx < jdx && jdx < vis.n ==> vis.key[idx] < vis.key[jdx]
+//@   ensures [C06] complete-unless-stopped: result == nil && !vis.stop ==> forall k {mem(k, old(tvs)[old(t.root.root)])} :: mem(k, old(tvs)[old(t.root.root)]) && k >= ord(target) ==> exists idx {vis.key[idx]} :: old(vis.n) <= idx && idx < vis.n && vis.key[idx] == k
+//@   ensures [C19] key-only-reads-no-value: !withValue ==> io.valbytes == old(io.valbytes)
+//@   ensures [C04,C09] visit-changes-no-version: t.root == old(t.root) && rootNodeLoc.refs == old(rootNodeLoc.refs) && rootNodeLoc.root == old(rootNodeLoc.root) && rootNodeLoc.next == old(rootNodeLoc.next) && rootNodeLoc.chainedCollection == old(rootNodeLoc.chainedCollection) && rootNodeLoc.chainedRootNodeLoc == old(rootNodeLoc.chainedRootNodeLoc) && tvs == old(tvs) && ias == old(ias) && (forall m {node.next[m]} :: !fresh(m) ==> node.next[m] == old(node.next[m])) && (forall x {nodeLoc.loc[x]} {nodeLoc.next[x]} :: !fresh(x) ==> nodeLoc.loc[x] == old(nodeLoc.loc[x]) && nodeLoc.next[x] == old(nodeLoc.next[x])) && freeNodes == old(freeNodes) && freeNodeLocs == old(freeNodeLocs) && freeRootNodeLocs == old(freeRootNodeLocs)
+//@   ensures [C15] in-visit-eviction-releases-what-it-drops: orphans == old(orphans)
+
+//@ func (*Collection).VisitItemsDescendEx
+//@   props C06 C19 C07 C15 C05 C04 C09
+//@   from: C06 statement, over the ghost visit log (see visitNodes)
+//@   requires [C05,C18] nolocks: locks == emptyLocks()
+//@   requires t != nil && t.store != nil && t.rootLock != nil && t.compare != nil && visitor != nil
+//@   requires [C07] open-handle: t.root != nil
+//@   relies root-lock-is-private: t.rootLock != ref(freeNodeLock) && t.rootLock != ref(freeNodeLocLock) && t.rootLock != ref(freeRootNodeLocLock)
+//@   relies [C04] current-version-is-live: t.root.refs >= 1 && t.root.root != nil && t.root.next == nil
+//@   relies [C13] published-root-is-a-search-tree: bst(tvs[t.root.root])
+//@   modifies rootNodeLoc.refs, rootNodeLoc.root, rootNodeLoc.next, rootNodeLoc.chainedCollection, rootNodeLoc.chainedRootNodeLoc, node.numNodes, node.numBytes, node.next, itemLoc.loc, itemLoc.item, nodeLoc.loc, nodeLoc.node, nodeLoc.next, mem.ptr, G.freeNodes, G.freeNodeLocs, G.freeRootNodeLocs, AllocStats.CurFreeNodes, AllocStats.FreeNodes, AllocStats.CurFreeNodeLocs, AllocStats.FreeNodeLocs, AllocStats.CurFreeRootNodeLocs, AllocStats.FreeRootNodeLocs, ghost net, ghost tvs, t.store.nodeAllocs, new ploc.Offset, new ploc.Length, new node.numNodes, new node.numBytes, new node.next, new itemLoc.loc, new itemLoc.item, new nodeLoc.loc, new nodeLoc.node, new nodeLoc.next, new Item.Key, new Item.Val, new Item.Priority, new Item.Transient, new mem.byte, ghost io.fails, ghost io.reads, ghost io.valbytes, ghost src, cell.Int, ghost orphans, ghost vis.n, ghost vis.key, ghost vis.item, ghost vis.depth, ghost vis.hasval, ghost vis.stop
+//@   ensures [C07] E1: io.fails >= old(io.fails) && (io.fails > old(io.fails) ==> result != nil)
+//@   ensures [C06] log-only-grows: vis.n >= old(vis.n) && (forall idx {vis.key[idx]} {vis.item[idx]} {vis.hasval[idx]} {old(vis.key)[idx]} {old(vis.item)[idx]} {old(vis.hasval)[idx]} :: idx < old(vis.n) ==> vis.key[idx] == old(vis.key)[idx] && vis.item[idx] == old(vis.item)[idx] && vis.hasval[idx] == old(vis.hasval)[idx])
+//@   ensures [C06] delivered-items-are-the-collections: forall idx {vis.key[idx]} {vis.item[idx]} {vis.depth[idx]} {vis.hasval[idx]} :: old(vis.n) <= idx && idx < vis.n ==> mem(vis.key[idx], old(tvs)[old(t.root.root)]) && vis.item[idx] == itemAt(vis.key[idx], old(tvs)[old(t.root.root)]) && vis.key[idx] < ord(target) && vis.depth[idx] == depthIn(vis.key[idx], old(tvs)[old(t.root.root)]) && (withValue ==> vis.hasval[idx])
+//@   ensures [C06] strictly-ordered: forall idx, jdx {vis.key[idx], vis.key[jdx]} :: old(vis.n) <= idx && idx < jdx && jdx < vis.n ==> vis.key[idx] > vis.key[jdx]
+//@   ensures [C06] complete-unless-stopped: result == nil && !vis.stop ==> forall k {mem(k, old(tvs)[old(t.root.root)])} :: mem(k, old(tvs)[old(t.root.root)]) && k < ord(target) ==> exists idx {vis.key[idx]} :: old(vis.n) <= idx && idx < vis.n && vis.key[idx] == k
+//@   ensures [C19] key-only-reads-no-value: !withValue ==> io.valbytes == old(io.valbytes)
+//@   ensures [C04,C09] visit-changes-no-version: t.root == old(t.root) && rootNodeLoc.refs == old(rootNodeLoc.refs) && rootNodeLoc.root == old(rootNodeLoc.root) && rootNodeLoc.next == old(rootNodeLoc.next) && rootNodeLoc.chainedCollection == old(rootNodeLoc.chainedCollection) && rootNodeLoc.chainedRootNodeLoc == old(rootNodeLoc.chainedRootNodeLoc) && tvs == old(tvs) && ias == old(ias) && (forall m {node.next[m]} :: !fresh(m) ==> node.next[m] == old(node.next[m])) && (forall x {nodeLoc.loc[x]} {nodeLoc.next[x]} :: !fresh(x) ==> nodeLoc.loc[x] == old(nodeLoc.loc[x]) && nodeLoc.next[x] == old(nodeLoc.next[x])) && freeNodes == old(freeNodes) && freeNodeLocs == old(freeNodeLocs) && freeRootNodeLocs == old(freeRootNodeLocs)
+//@   ensures [C15] in-visit-eviction-releases-what-it-drops: orphans == old(orphans)
+
+//@ func (*Collection).VisitItemsAscend
+//@   props C06 C19 C07 C15 C05 C04 C09
+//@   from: C06 statement, over the ghost visit log (see visitNodes)
+//@   requires [C05,C18] nolocks: locks == emptyLocks()
+//@   requires t != nil && t.store != nil && t.rootLock != nil && t.compare != nil && v != nil
+//@   requires [C07] open-handle: t.root != nil
+//@   modifies rootNodeLoc.refs, rootNodeLoc.root, rootNodeLoc.next, rootNodeLoc.chainedCollection, rootNodeLoc.chainedRootNodeLoc, node.numNodes, node.numBytes, node.next, itemLoc.loc, itemLoc.item, nodeLoc.loc, nodeLoc.node, nodeLoc.next, mem.ptr, G.freeNodes, G.freeNodeLocs, G.freeRootNodeLocs, AllocStats.CurFreeNodes, AllocStats.FreeNodes, AllocStats.CurFreeNodeLocs, AllocStats.FreeNodeLocs, AllocStats.CurFreeRootNodeLocs, AllocStats.FreeRootNodeLocs, ghost net, ghost tvs, t.store.nodeAllocs, new ploc.Offset, new ploc.Length, new node.numNodes, new node.numBytes, new node.next, new itemLoc.loc, new itemLoc.item, new nodeLoc.loc, new nodeLoc.node, new nodeLoc.next, new Item.Key, new Item.Val, new Item.Priority, new Item.Transient, new mem.byte, ghost io.fails, ghost io.reads, ghost io.valbytes, ghost src, cell.Int, ghost orphans, ghost vis.n, ghost vis.key, ghost vis.item, ghost vis.depth, ghost vis.hasval, ghost vis.stop
+//@   ensures [C07] E1: io.fails >= old(io.fails) && (io.fails > old(io.fails) ==> result != nil)
+//@   ensures [C06] log-only-grows: vis.n >= old(vis.n) && (forall idx {vis.key[idx]} {vis.item[idx]} {vis.hasval[idx]} {old(vis.key)[idx]} {old(vis.item)[idx]} {old(vis.hasval)[idx]} :: idx < old(vis.n) ==> vis.key[idx] == old(vis.key)[idx] && vis.item[idx] == old(vis.item)[idx] && vis.hasval[idx] == old(vis.hasval)[idx])
+//@   ensures [C06] delivered-items-are-the-collections: forall idx {vis.key[idx]} {vis.item[idx]} {vis.depth[idx]} {vis.hasval[idx]} :: old(vis.n) <= idx && idx < vis.n ==> mem(vis.key[idx], old(tvs)[old(t.root.root)]) && vis.item[idx] == itemAt(vis.key[idx], old(tvs)[old(t.root.root)]) && vis.key[idx] >= ord(target) && (withValue ==> vis.hasval[idx])
+//@   ensures [C06] strictly-ordered: forall idx, jdx {vis.key[idx], vis.key[jdx]} :: old(vis.n) <= idx && idx < jdx && jdx < vis.n ==> vis.key[idx] < vis.key[jdx]
+//@   ensures [C06] complete-unless-stopped: result == nil && !vis.stop ==> forall k {mem(k, old(tvs)[old(t.root.root)])} :: mem(k, old(tvs)[old(t.root.root)]) && k >= ord(target) ==> exists idx {vis.key[idx]} :: old(vis.n) <= idx && idx < vis.n && vis.key[idx] == k
+//@   ensures [C19] key-only-reads-no-value: !withValue ==> io.valbytes == old(io.valbytes)
+//@   ensures [C04,C09] visit-changes-no-version: t.root == old(t.root) && rootNodeLoc.refs == old(rootNodeLoc.refs) && rootNodeLoc.root == old(rootNodeLoc.root) && rootNodeLoc.next == old(rootNodeLoc.next) && rootNodeLoc.chainedCollection == old(rootNodeLoc.chainedCollection) && rootNodeLoc.chainedRootNodeLoc == old(rootNodeLoc.chainedRootNodeLoc) && tvs == old(tvs) && ias == old(ias) && (forall m {node.next[m]} :: !fresh(m) ==> node.next[m] == old(node.next[m])) && (forall x {nodeLoc.loc[x]} {nodeLoc.next[x]} :: !fresh(x) ==> nodeLoc.loc[x] == old(nodeLoc.loc[x]) && nodeLoc.next[x] == old(nodeLoc.next[x])) && freeNodes == old(freeNodes) && freeNodeLocs == old(freeNodeLocs) && freeRootNodeLocs == old(freeRootNodeLocs)
+//@   ensures [C15] in-visit-eviction-releases-what-it-drops: orphans == old(orphans)
+
+//@ func (*Collection).VisitItemsDescend
+//@   props C06 C19 C07 C15 C05 C04 C09
+//@   from: C06 statement, over the ghost visit log (see visitNodes)
+//@   requires [C05,C18] nolocks: locks == emptyLocks()
+//@   requires t != nil && t.store != nil && t.rootLock != nil && t.compare != nil && v != nil
+//@   requires [C07] open-handle: t.root != nil
+//@   modifies rootNodeLoc.refs, rootNodeLoc.root, rootNodeLoc.next, rootNodeLoc.chainedCollection, rootNodeLoc.chainedRootNodeLoc, node.numNodes, node.numBytes, node.next, itemLoc.loc, itemLoc.item, nodeLoc.loc, nodeLoc.node, nodeLoc.next, mem.ptr, G.freeNodes, G.freeNodeLocs, G.freeRootNodeLocs, AllocStats.CurFreeNodes, AllocStats.FreeNodes, AllocStats.CurFreeNodeLocs, AllocStats.FreeNodeLocs, AllocStats.CurFreeRootNodeLocs, AllocStats.FreeRootNodeLocs, ghost net, ghost tvs, t.store.nodeAllocs, new ploc.Offset, new ploc.Length, new node.numNodes, new node.numBytes, new node.next, new itemLoc.loc, new itemLoc.item, new nodeLoc.loc, new nodeLoc.node, new nodeLoc.next, new Item.Key, new Item.Val, new Item.Priority, new Item.Transient, new mem.byte, ghost io.fails, ghost io.reads, ghost io.valbytes, ghost src, cell.Int, ghost orphans, ghost vis.n, ghost vis.key, ghost vis.item, ghost vis.depth, ghost vis.hasval, ghost vis.stop
+//@   ensures [C07] E1: io.fails >= old(io.fails) && (io.fails > old(io.fails) ==> result != nil)
+//@   ensures [C06] log-only-grows: vis.n >= old(vis.n) && (forall idx {vis.key[idx]} {vis.item[idx]} {vis.hasval[idx]} {old(vis.key)[idx]} {old(vis.item)[idx]} {old(vis.hasval)[idx]} :: idx < old(vis.n) ==> vis.key[idx] == old(vis.key)[idx] && vis.item[idx] == old(vis.item)[idx] && vis.hasval[idx] == old(vis.hasval)[idx])
+//@   ensures [C06] delivered-items-are-the-collections: forall idx {vis.key[idx]} {vis.item[idx]} {vis.depth[idx]} {vis.hasval[idx]} :: old(vis.n) <= idx && idx < vis.n ==> mem(vis.key[idx], old(tvs)[old(t.root.root)]) && vis.item[idx] == itemAt(vis.key[idx], old(tvs)[old(t.root.root)]) && vis.key[idx] < ord(target) && (withValue ==> vis.hasval[idx])
+//@   ensures [C06] strictly-ordered: forall idx, jdx {vis.key[idx], vis.key[jdx]} :: old(vis.n) <= idx && idx < jdx && jdx < vis.n ==> vis.key[idx] > vis.key[jdx]
+//@   ensures [C06] complete-unless-stopped: result == nil && !vis.stop ==> forall k {mem(k, old(tvs)[old(t.root.root)])} :: mem(k, old(tvs)[old(t.root.root)]) && k < ord(target) ==> exists idx {vis.key[idx]} :: old(vis.n) <= idx && idx < vis.n && vis.key[idx] == k
+//@   ensures [C19] key-only-reads-no-value: !withValue ==> io.valbytes == old(io.valbytes)
+//@   ensures [C04,C09] visit-changes-no-version: t.root == old(t.root) && rootNodeLoc.refs == old(rootNodeLoc.refs) && rootNodeLoc.root == old(rootNodeLoc.root) && rootNodeLoc.next == old(rootNodeLoc.next) && rootNodeLoc.chainedCollection == old(rootNodeLoc.chainedCollection) && rootNodeLoc.chainedRootNodeLoc == old(rootNodeLoc.chainedRootNodeLoc) && tvs == old(tvs) && ias == old(ias) && (forall m {node.next[m]} :: !fresh(m) ==> node.next[m] == old(node.next[m])) && (forall x {nodeLoc.loc[x]} {nodeLoc.next[x]} :: !fresh(x) ==> nodeLoc.loc[x] == old(nodeLoc.loc[x]) && nodeLoc.next[x] == old(nodeLoc.next[x])) && freeNodes == old(freeNodes) && freeNodeLocs == old(freeNodeLocs) && freeRootNodeLocs == old(freeRootNodeLocs)
+//@   ensures [C15] in-visit-eviction-releases-what-it-drops: orphans == old(orphans)
+
+//@ func newIterator
+//@   props C06 C18
+//@   from: C06 ("the IterateAscend/IterateDescend iterators deliver the identical sequences"): the iterator carries the requested target and value mode to the producer
+//@   ensures [C06] carries-the-request: result != nil && fresh(result) && result.withValue == withValue && result.target == target && !result.closed && result.next != nil && result.items != nil
